@@ -341,6 +341,28 @@ def registry_hook(ctx, rng):
     """With a registry's adapter_hook installed, I(obj) == registry.queryAdapter(obj, I)."""
     saved = list(zi.adapter_hooks)
     try:
+        # the hook is installed once (a bound entry point of the registry, as applications do at start-up); the registry is
+        # rebuilt later and then loses a registration
+        for Reg_ in (AdapterRegistry, VerifyingAdapterRegistry):
+            mod_ = util.fresh_module()
+            IFoo, IBar = util.mkiface('IFoo', module=mod_), util.mkiface('IBar', module=mod_)
+            Kf = type('Foo', (), {})
+            classImplements(Kf, IFoo)
+            foo = Kf()
+            reg_ = Reg_()
+            fac_ = lambda o: ('adapted', id(o))      # noqa: E731
+            reg_.register([IFoo], IBar, '', fac_)
+            zi.adapter_hooks[:] = [reg_.adapter_hook]
+            first = IBar(foo, None)
+            reg_.rebuild()
+            reg_.unregister([IFoo], IBar, '', fac_)
+            ctx.ev()
+            ctx.count('registry_hook_kept_across_rebuild')
+            got, exp = IBar(foo, None), reg_.queryAdapter(foo, IBar)
+            if first is None or got != exp:
+                ctx.violation('registry-hook-vs-queryAdapter', {'after': 'rebuild() of the registry whose adapter_hook was installed before, then unregister',
+                                                                 'got': repr(got), 'expected': repr(exp)},
+                              mechanism='entry_point_kept_across_rebuild', abort=False)
         for n_world in range(40):
             # plain registries, and verifying ones below a base that changes between the questions
             base = VerifyingAdapterRegistry() if n_world % 2 else None
